@@ -202,7 +202,7 @@ func zzStakingWorldAcc(sm *StateMachine, n int) ([]*Validator, uint64) {
 	return vals, bal
 }
 
-//zz:harness mode=int unwind=60 maxpaths=40000 timebudget=1200 param.committeeshapes@thorough=2
+//zz:harness mode=int unwind=60 maxpaths=40000 timebudget=1200 param.committeeshapes@thorough=2 param.vals@thorough=2
 //zz:reach C12.unstake.ok C12.unstake.done
 func ZZ_C12_step_Unstake() {
 	sm, _ := zzFSM(5)
@@ -222,7 +222,7 @@ func ZZ_C12_step_Unstake() {
 	zzReach("C12.unstake.done")
 }
 
-//zz:harness mode=int unwind=60 maxpaths=40000 timebudget=1200 param.committeeshapes@thorough=2
+//zz:harness mode=int unwind=60 maxpaths=40000 timebudget=1200 param.committeeshapes@thorough=2 param.vals@thorough=2
 //zz:reach C12.pause.ok C12.pause.done
 func ZZ_C12_step_Pause_Unpause() {
 	sm, _ := zzFSM(5)
